@@ -8,27 +8,26 @@ From M17 Require Import ConstsLlr ImplLLR SpecLLR LemmasLLR_A LemmasLLR_B Lemmas
 Import ListNotations.
 Open Scope Z_scope.
 
-Definition W := llr_width_modem.
-Definition tbl32 : list row := make_llr_map F32 W.
+Definition tbl32 : list row := make_llr_map F32 llr_width_modem.
 Definition Sp32 : positive := (2 ^ 149)%positive.
 
 (** exported: the soft demapper the modem uses, on Flocq's binary32 and on IEEE bit patterns *)
-Definition llr4_float (x : binary32) : Z * Z := llr F32 W (B2SF 24 128 x).
-Definition llr4_float_bits (b : Z) : Z * Z := llr F32 W (sf_of_bits F32 b).
+Definition llr4_float (x : binary32) : Z * Z := llr F32 llr_width_modem (B2SF 24 128 x).
+Definition llr4_float_bits (b : Z) : Z * Z := llr F32 llr_width_modem (sf_of_bits F32 b).
 Definition B2Q32 (x : binary32) : Q := SF2Q (B2SF 24 128 x).
 
 Lemma Hprec32 : 0 < 24. Proof. reflexivity. Qed.
 Lemma Hemax32 : 24 < 128. Proof. reflexivity. Qed.
 Lemma HSp32 : Zpos Sp32 = 2 ^ (- SpecFloat.emin 24 128). Proof. vm_compute. reflexivity. Qed.
 
-Lemma width_is_4 : W = 4. Proof. reflexivity. Qed.
+Lemma width_is_4 : llr_width_modem = 4. Proof. reflexivity. Qed.
 Lemma tbl32_rows : length tbl32 = 43%nat. Proof. vm_compute. reflexivity. Qed.
 
 (** table_ok: the finite facts *)
 Lemma C32_valid : chk_valid 24 128 tbl32 = true. Proof. vm_compute. reflexivity. Qed.
 Lemma C32_sorted : chk_sorted 24 128 tbl32 = true. Proof. vm_compute. reflexivity. Qed.
 Lemma C32_bounds : chk_bounds 24 128 Sp32 = true. Proof. vm_compute. reflexivity. Qed.
-Lemma C32_soft : chk_soft tbl32 W = true. Proof. vm_compute. reflexivity. Qed.
+Lemma C32_soft : chk_soft tbl32 llr_width_modem = true. Proof. vm_compute. reflexivity. Qed.
 Lemma C32_sign : chk_sign 24 128 tbl32 Sp32 = true. Proof. vm_compute. reflexivity. Qed.
 Lemma C32_first : chk_first tbl32 = true. Proof. vm_compute. reflexivity. Qed.
 Lemma C32_second_pos : chk_second_pos 24 128 tbl32 = true. Proof. vm_compute. reflexivity. Qed.
@@ -58,8 +57,8 @@ Qed.
 Theorem llr32_nonzero_inrange : forall x : binary32,
   let v := llr4_float x in fst v <> 0 /\ -7 <= fst v <= 7 /\ snd v <> 0 /\ -7 <= snd v <= 7.
 Proof.
-  intro x. apply (soft_ok_prop W).
-  exact (final_soft_ok 24 128 Hprec32 Hemax32 tbl32 W Sp32 C32_valid C32_sorted C32_bounds C32_soft (B2SF 24 128 x) (valid_B2SF32 x)).
+  intro x. apply (soft_ok_prop llr_width_modem).
+  exact (final_soft_ok 24 128 Hprec32 Hemax32 tbl32 llr_width_modem Sp32 C32_valid C32_sorted C32_bounds C32_soft (B2SF 24 128 x) (valid_B2SF32 x)).
 Qed.
 
 Lemma finite_sf32 : forall x : binary32, is_finite 24 128 x = true -> sf_finite (B2SF 24 128 x) = true.
@@ -135,5 +134,5 @@ Proof.
 Qed.
 
 (** the bit-pattern entry point agrees with the binary32 one *)
-Lemma llr4_float_bits_spec : forall x : binary32, llr4_float x = llr F32 W (B2SF 24 128 x).
+Lemma llr4_float_bits_spec : forall x : binary32, llr4_float x = llr F32 llr_width_modem (B2SF 24 128 x).
 Proof. reflexivity. Qed.
